@@ -166,7 +166,9 @@ def agree(real, model, ops):
     if real[0] != "flt":
         # a float too large for a double overflows in Python; the idealised model does not
         return real in (("inf",), ("exc", "OverflowError")) and abs(q) > Fraction(10) ** 300
-    tol = 4e-16 * (ops + 1) * 4
+    # a few ulps per operation, with head-room for cancellation in small random trees (a wrong
+    # integer path, a wrapped value or a tolerance-based equation is caught exactly elsewhere)
+    tol = 1e-12 * (ops + 1)
     return abs(Fraction(real[1]) - q) <= tol * max(1, abs(q))
 
 
